@@ -111,6 +111,12 @@ def tr_e(c, e):
         ty = c.extern_types.get(n, 'N')
         c.extern('this_' + ident(n), ty)
         return ('this_' + ident(n), ty)
+    if k == 'field' and e[1][0] == 'var':
+        # member of a parameter / local structure (pMechanism->mechanism): a value the function consults
+        nm = ident(e[1][1] + '_' + e[2].split('::')[-1])
+        ty = c.extern_types.get(nm, 'N')
+        c.extern(nm, ty)
+        return (nm, ty)
     if k == 'cast':
         t, ty = tr_e(c, e[2])
         if e[1] in BOOL_TYPES and ty == 'N':
@@ -134,6 +140,8 @@ def tr_e(c, e):
         raise Unsupported('unary ' + op)
     if k == 'bin':
         op = e[1]
+        if op in ('op==', 'op!='):      # iterator / ByteString comparison: equality of the two (opaque) values
+            op = op[2:]
         if op == '&&':
             return ('(%s && %s)' % (as_bool(c, e[2]), as_bool(c, e[3])), 'bool')
         if op == '||':
@@ -157,6 +165,10 @@ def tr_e(c, e):
             return ('(N.lor %s %s)' % (as_N(c, e[2]), as_N(c, e[3])), 'N')
         if op == '+':
             return ('((%s + %s) mod 18446744073709551616)' % (as_N(c, e[2]), as_N(c, e[3])), 'N')
+        if op == '%' and e[3][0] == 'int' and e[3][1] > 0:
+            return ('(N.modulo %s %d)' % (as_N(c, e[2]), e[3][1]), 'N')
+        if op == '-':
+            return ('((%s + 18446744073709551616 - %s) mod 18446744073709551616)' % (as_N(c, e[2]), as_N(c, e[3])), 'N')
         raise Unsupported('binary ' + op)
     if k == 'cond':
         a, ta = tr_e(c, e[2])
@@ -174,6 +186,8 @@ def tr_e(c, e):
             return (name, rty)
         c.extern(name, ('fun', [t for (_, t) in args], rty))
         return ('(%s %s)' % (name, ' '.join(a for (a, _) in args)), rty)
+    if k == 'refarg':
+        raise Unsupported('variable %s passed by non-const reference' % e[1])
     raise Unsupported('expression ' + str(k) + ' ' + repr(e)[:60])
 
 
